@@ -39,7 +39,7 @@ def main():
     head = ("%d seeded changes: %d caught with a concrete failing input, %d noticed without one, %d missed, %d retired / not reachable in the harness's configuration (marked in the table).\n\n" % (len(rows), caught, noticed, missed, special))
     open(os.path.join(VERIF, "seeded", "README.md"), "w").write(
         "# Seeded changes\n\nEach directory: `patch.diff` (the change to /repo), the demonstration test that fails with it and passes "
-        "without it, `meta.json` (confirmation in a scratch worktree and the results of the checks run against /repo with the change "
+        "without it, `report.md` (the explanation of whoever planted it, where kept; a report of rounds 1 and 2 covers two changes), `meta.json` (confirmation in a scratch worktree and the results of the checks run against /repo with the change "
         "applied; `tools/seedtest.py` produces it).\n\n" + head + table + "\n")
     dp = os.path.join(VERIF, "DESIGN.md")
     s = open(dp).read()
